@@ -436,6 +436,12 @@ func (p *Element) Neg(p1 *Element) *Element {
 
 // ScalarMul sets p to p1*s.
 func (p *Element) ScalarMul(p1 *Element, scalarMont *fr.Element) *Element {
+	// The endomorphism used by the GLV scalar multiplication degenerates to the
+	// invalid triple (0, 0, 0) on the identity class {(0, 1), (0, -1)}.
+	// Every multiple of the identity is the identity.
+	if p1.inner.X.IsZero() && !p1.inner.Y.IsZero() {
+		return p.SetIdentity()
+	}
 	var bigScalar big.Int
 	scalarMont.ToBigIntRegular(&bigScalar)
 	p.inner.ScalarMultiplication(&p1.inner, &bigScalar)
